@@ -202,7 +202,13 @@ class ProbedSet(set):
     def _wrap(name):
         def f(self, *a):
             if ProbedSet.log is not None:
-                ProbedSet.log.append((self.label, name, sorted(x.hex() for x in a[0]) if a else None))
+                if a and isinstance(a[0], (bytes, bytearray)):
+                    arg = [bytes(a[0]).hex()]
+                elif a:
+                    arg = sorted(bytes(x).hex() for x in a[0])
+                else:
+                    arg = None
+                ProbedSet.log.append((self.label, name, arg))
             if ProbedSet.probe:
                 ProbedSet.probe("before-" + name)
             r = getattr(set, name)(self, *a)
@@ -284,7 +290,8 @@ def dynamic_case(report, drv, rng, allow_old, allow_new, deny_new, whitelist, ou
         report.property_failure("the configured queries matched nothing: the allow list is %r, not the static whitelist"
                                 % sorted(final), payload, "dynlist-empty-result-drops-whitelist")
     # correspondence: the atomic operations on the allow list and the states between them
-    model_ops = [{"op": {"clear": "clear", "update": "update", "intersection_update": "isect"}.get(o[1], o[1]), "s": o[2] or []} for o in ops]
+    model_ops = [{"op": {"clear": "clear", "update": "update", "add": "update", "intersection_update": "isect"}.get(o[1], o[1]),
+                  "s": o[2] or []} for o in ops]
     states = drv.call({"op": "adm.observable", "cur": sorted(allow_old), "ops": model_ops})
     if sorted(states[-1]) != sorted(final):
         report.correspondence_break("dynamic_lists.ListBuilder.run_once", payload, sorted(final), states[-1])
